@@ -609,4 +609,5 @@ package exec
 //@   loop 2 invariant one-entry-per-dependency: len(todo) == at_loop(2, len(todo)) + range_idx
 //@   loop 2 invariant entries-are-dependencies: forall(t, at_loop(2, len(todo)), len(todo), has(b.invocationDeps[i], todo[t]) && range_visited[todo[t]])
 //@   loop 2 invariant entries-distinct: forall(t1, at_loop(2, len(todo)), len(todo), forall(t2, at_loop(2, len(todo)), len(todo), implies(t1 != t2, todo[t1] != todo[t2])))
+//@   loop 2 exit all-dependencies-enqueued: len(todo) == at_loop(2, len(todo)) + len(b.invocationDeps[i])
 //@   loop 3 invariant -1 <= i && i < len(invocations)
